@@ -97,7 +97,7 @@ def canon_key(e, atoms):
                     p = reduce_trig(cancel_inverses(to_poly(a, atoms)), _ctx["pairs"])
                     if _sq_table(atoms):
                         p = reduce_trig(cancel_inverses(reduce_sqrt(p, _sq_table(atoms))), _ctx["pairs"])
-                        p = merge_sqrt(p, atoms)
+                        p = unify_nonneg(merge_sqrt(p, atoms), atoms)
                     parts.append(repr(sorted((m, str(c)) for m, c in p.t.items())))
                     continue
                 except NotPolynomial:
@@ -235,6 +235,45 @@ def _squarefree_split(n):
             f *= d
         d += 1 if d == 2 else 2
     return a, f * n
+
+
+_NN_TABLES = {}
+
+
+def _manifestly_nonneg(p, atoms):
+    """All coefficients positive and every factor a non-negative atom, a square root or an even power."""
+    sq = _sq_table(atoms)
+    for m, cf in p.t.items():
+        if cf <= 0:
+            return False
+        for v, e in m:
+            if e % 2 and v not in sq and not _is_nonneg_atom(atoms, v):
+                return False
+    return bool(p.t)
+
+
+def unify_nonneg(p, atoms):
+    """a == b follows from a, b >= 0 and a^2 == b^2: an argument polynomial that is manifestly non-negative and whose
+    square (roots multiplied out) equals the square of one met before is replaced by that one, so that
+    (r + t) sqrt(1 - u^2) and sqrt((r^2 + 2 r t + t^2) (1 - u^2)) name the same argument."""
+    if _ctx.get("nonneg") is None or not _sq_table(atoms) or not _manifestly_nonneg(p, atoms):
+        return p
+    if not any(v in _sq_table(atoms) for m in p.t for v, _ in m):
+        return p
+    ent = _NN_TABLES.get(id(atoms))
+    if ent is None or ent[0] is not atoms:
+        ent = (atoms, [])
+        _NN_TABLES[id(atoms)] = ent
+        if len(_NN_TABLES) > 4096:
+            for k in list(_NN_TABLES)[:2048]:
+                if k != id(atoms):
+                    del _NN_TABLES[k]
+    p2 = reduce_trig(cancel_inverses(reduce_sqrt(p * p, _sq_table(atoms))), _ctx["pairs"])
+    for q_, q2 in ent[1]:
+        if (p2 - q2).is_zero():
+            return q_
+    ent[1].append((p, p2))
+    return p
 
 
 def merge_sqrt(p, atoms):
